@@ -384,9 +384,14 @@ def c07_check(scn):
 
 
 def c07_case(rng, idx, params):
-    spec = gen_any_spec(rng, 0.2)
+    spec = gen_any_spec(rng, 0.3)
+    if rng.random() < 0.15:
+        spec = {"kind": "AMORPH", "fn": rng.choice(["doji", "dojistar", "hammer", "inv_hammer"]), "round": 4}
+    if spec["kind"] == "AMORPH" and spec["fn"] in ("doji", "dojistar", "hammer", "inv_hammer") and rng.random() < 0.7:
+        spec["lookback"] = rng.choice([1, 2, 5, 12])
     lengths = params.get("lengths", [120, 600])
-    stream, meta = gen.gen_stream(rng, max(lengths) + 1, price_style=rng.choice(["walk", "jumpy", "ints"]), ts_style="regular")
+    stream, meta = gen.gen_stream(rng, max(lengths) + 1, price_style=rng.choice(["walk", "jumpy", "ints", "allzerovol", "flat", "zerovol", "repeat"]),
+                                  ts_style="regular")
     scn = {"spec": spec, "stream": stream, "lengths": lengths}
     try:
         bad = c07_check(scn)
@@ -457,4 +462,177 @@ def c15b_case(rng, idx, params):
 
 def c15b_replay(w):
     bad = c15b_check(w["scenario"])
+    return {"fails": bad is not None, "detail": bad}
+
+
+# ------------------------------------------------------------------------------------ C14 inside a Hexital
+
+
+def c14_hexital_check(scn):
+    """maintenance operations aimed at ONE member: it ends with its batch readings, its purge removes all of its
+    entries, and nothing written by the other members changes"""
+    from hexital.core.hexital import Hexital
+
+    stream = scn["stream"]
+    members = [specs.build_indicator(sp, [], with_manager=False) for sp in scn["members"]]
+    names = [m.name for m in members]
+    if len(set(names)) != len(names):
+        return None
+    hx = Hexital("H", cm.mk_candles(stream[: scn["init"]]), members)
+    try:
+        hx.calculate()
+        consumed = scn["init"]
+        for op in scn["program"]:
+            if op[0] == "append":
+                hx.append(cm.mk_candles(stream[consumed : consumed + op[1]]))
+                consumed += op[1]
+                continue
+            target = names[op[1] % len(names)]
+            own = tree_names(hx.indicator(target))
+            before = snapshot(hx.candles())
+            if op[0] == "purge":
+                hx.purge(target)
+                after = snapshot(hx.candles())
+                left = sorted({k for c in hx.candles() for k in list(c.indicators) + list(c.sub_indicators) if k in own})
+                if left:
+                    return {"clause": "purge-leaves-entries", "observed": left[:5], "expected": f"no entry of {target} left"}
+            elif op[0] == "recalculate":
+                hx.recalculate(target)
+                after = snapshot(hx.candles())
+            else:
+                # only indices whose reading and predecessors are already computed may be recomputed
+                hx.calculate()
+                if len(hx.candles()) < -op[2]:
+                    continue
+                before = snapshot(hx.candles())
+                hx.calculate_index(target, op[2])
+                after = snapshot(hx.candles())
+                if before != after:
+                    return {"clause": "calculate_index-differs", "observed": {"target": target, "index": op[2], **(first_diff(before, after) or {})},
+                            "expected": "recomputing a computed index reproduces it"}
+            # nothing else may change: compare every key not owned by the target
+            for i, (b, a) in enumerate(zip(before, after)):
+                for d1, d2 in ((b[1], a[1]), (b[2], a[2])):
+                    for k in set(d1) | set(d2):
+                        if k not in own and d1.get(k, "<absent>") != d2.get(k, "<absent>"):
+                            return {"clause": f"{op[0]}-touches-other", "observed": {"target": target, "key": k, "index": i,
+                                                                                       "before": d1.get(k, "<absent>"), "after": d2.get(k, "<absent>")},
+                                    "expected": "entries of other indicators untouched"}
+        hx.calculate()
+    except Exception as e:
+        return {"clause": "raises", "observed": repr(e), "expected": "no exception"}
+    final = snapshot(hx.candles())
+    for sp, nm in zip(scn["members"], names):
+        try:
+            twin = run_batch({**sp, "name": nm, "suffix": None}, stream[:consumed])
+        except Exception:
+            continue
+        own = tree_names(twin)
+        for i, (f, t) in enumerate(zip(final, snapshot(twin.candles))):
+            for d1, d2 in ((f[1], t[1]), (f[2], t[2])):
+                for k in own:
+                    if d1.get(k, "<absent>") != d2.get(k, "<absent>"):
+                        return {"clause": "final!=batch", "observed": {"member": nm, "key": k, "index": i, "hexital": d1.get(k, "<absent>"),
+                                                                        "batch": d2.get(k, "<absent>")}, "expected": "batch readings"}
+    return None
+
+
+def c14_hexital_case(rng, idx, params):
+    base = specs.gen_spec(rng, ["RSI", "STOCH", "VWAP", "STDEV", "MACD", "KC", "BBANDS", "ATR", "HMA", "TSI", "ADX", "SUPERTREND", "EMA", "SMA"])
+    base.pop("name", None)
+    base.pop("suffix", None)
+    members = [base]
+    # a second member whose name extends the first one's name with "_": e.g. RSI_4 and RSI_4_high
+    other = dict(base)
+    other["suffix"] = rng.choice(["high", "x", "2"])
+    if "input" in other:
+        other["input"] = rng.choice(["high", "low", "open"])
+    members.append(other)
+    if rng.random() < 0.5:
+        members.append(specs.gen_spec(rng))
+    rng.shuffle(members)
+    n = rng.randint(12, params.get("size", 40))
+    stream, meta = gen.gen_stream(rng, n)
+    init = rng.randint(0, n // 2)
+    left = n - init
+    prog = []
+    for _ in range(rng.randint(3, 10)):
+        k = rng.random()
+        if k < 0.45 and left > 0:
+            c = rng.randint(1, min(left, 6))
+            prog.append(("append", c))
+            left -= c
+        elif k < 0.65:
+            prog.append(("purge", rng.randint(0, 9)))
+        elif k < 0.85:
+            prog.append(("recalculate", rng.randint(0, 9)))
+        else:
+            prog.append(("calculate_index", rng.randint(0, 9), rng.choice([-1, -2, -1])))
+    scn = {"members": members, "stream": stream, "init": init, "program": prog}
+    try:
+        bad = c14_hexital_check(scn)
+    except Exception:
+        bad = None
+    viol = {"scenario": scn, **bad, "signature": f"C14:hexital:{bad['clause']}"} if bad else None
+    meta.update({"kind": "hexital:" + base["kind"], "ops": len(prog)})
+    return {"nontrivial": len(prog) >= 3, "key": hash(str(scn)), "violation": viol, "meta": meta,
+            "sample": {"members": members, "program": prog[:8]} if idx < 1 else None}
+
+
+def c14_any_replay(w):
+    s = w["scenario"]
+    if "members" in s:
+        bad = c14_hexital_check({**s, "program": [tuple(o) for o in s["program"]]})
+        return {"fails": bad is not None, "detail": bad}
+    return c14_replay(w)
+
+
+# ------------------------------------------------------------------------------------ C17 geometry under merging
+
+
+def c17_geometry_live_check(scn):
+    """candle geometry identities on every candle of a collapsing manager, after every append, with the
+    geometry having been read in between (an indicator on `realbody` / a pattern wrapper does that)"""
+    ind = specs.build_indicator(scn["spec"], [])
+    i = 0
+    for k in scn["chunks"]:
+        ind.append(cm.mk_candles(scn["stream"][i : i + k]))
+        i += k
+        for j, c in enumerate(ind.candles):
+            exp = {"realbody": abs(c.open - c.close), "shadow_upper": c.high - max(c.open, c.close),
+                   "shadow_lower": min(c.open, c.close) - c.low, "high_low": c.high - c.low,
+                   "positive": c.close > c.open, "negative": c.close < c.open}
+            got = {"realbody": c.realbody, "shadow_upper": c.shadow_upper, "shadow_lower": c.shadow_lower, "high_low": c.high_low,
+                   "positive": c.positive, "negative": c.negative}
+            for name in exp:
+                e, g = exp[name], got[name]
+                ok = (e == g) if isinstance(e, bool) else cm.close_enough(e, g, rel=1e-9, absol=1e-9)
+                if not ok:
+                    return {"clause": f"geometry:{name}", "observed": {"candle": j, "got": g, "expected": e, "after_candles": i},
+                            "expected": "the documented geometry of the candle's current OHLC"}
+    return None
+
+
+def c17_geometry_live_case(rng, idx, params):
+    spec = rng.choice([
+        {"kind": "SMA", "period": rng.randint(2, 4), "input": rng.choice(["realbody", "shadow_upper", "shadow_lower", "high_low"]), "round": 4},
+        {"kind": "AMORPH", "fn": rng.choice(["doji", "hammer", "dojistar", "inv_hammer", "positive", "negative"]), "round": 4},
+        {"kind": "COUNTER", "input": rng.choice(["positive", "negative"]), "cv": True, "round": 4},
+    ])
+    tf = gen.gen_timeframe(rng)
+    spec = dict(spec, tf=tf)
+    n = rng.randint(4, params.get("size", 40))
+    stream, meta = gen.gen_stream(rng, n, step=max(1, gen.tf_seconds(tf) // rng.choice([2, 3, 5])), ts_style="regular")
+    scn = {"spec": spec, "stream": stream, "chunks": [1] * n}
+    try:
+        bad = c17_geometry_live_check(scn)
+    except Exception:
+        bad = None
+    viol = {"scenario": scn, **bad, "signature": f"C17:candle:{bad['clause']}"} if bad else None
+    meta.update({"kind": "geometry-live"})
+    return {"nontrivial": n >= 4, "key": hash(str(scn)), "violation": viol, "meta": meta, "sample": None}
+
+
+def c17_geometry_live_replay(w):
+    bad = c17_geometry_live_check(w["scenario"])
     return {"fails": bad is not None, "detail": bad}
